@@ -84,6 +84,19 @@ SK_FORMS_UNTIL = ("While(test=Constant(value=True), body=[Expr(value=%s), If(tes
                   % (_call_self("slurp_space"), _call_self("peek_and_getc", "Name(id='closer', ctx=Load())"),
                      _call_self("try_parse_one_form")))
 
+SK_PARSE = [
+    "Expr(value=Call(func=Attribute(value=Name(id='self', ctx=Load()), attr='_set_source', ctx=Load()), "
+    "args=[Name(id='stream', ctx=Load()), Name(id='filename', ctx=Load())], keywords=[]))",
+    "If(test=BoolOp(op=And(), values=[Name(id='skip_shebang', ctx=Load()), Compare(left=Call(func=Attribute(value=Constant(value='$'), "
+    "attr='join', ctx=Load()), args=[Call(func=Name(id='islice', ctx=Load()), args=[Call(func=Attribute(value=Name(id='self', ctx=Load()), "
+    "attr='peeking', ctx=Load()), args=[], keywords=[keyword(arg='eof_ok', value=Constant(value=True))]), Call(func=Name(id='len', ctx=Load()), "
+    "args=[Constant(value='$')], keywords=[])], keywords=[])], keywords=[]), ops=[Eq()], comparators=[Constant(value='$')])]), "
+    "body=[For(target=Name(id='c', ctx=Store()), iter=Call(func=Attribute(value=Name(id='self', ctx=Load()), attr='chars', ctx=Load()), "
+    "args=[], keywords=[]), body=[If(test=Compare(left=Name(id='c', ctx=Load()), ops=[Eq()], comparators=[Constant(value='$')]), "
+    "body=[Break()], orelse=[])], orelse=[])], orelse=[])",
+    "Expr(value=YieldFrom(value=Call(func=Attribute(value=Name(id='self', ctx=Load()), attr='parse_forms_until', ctx=Load()), "
+    "args=[Constant(value='$')], keywords=[])))"]
+
 SEQ_KINDS = {"Expression": "KExpr", "List": "KList", "Dict": "KDict", "Set": "KSet", "Tuple": "KTuple"}
 
 
@@ -371,6 +384,17 @@ def translate(repo):
     fu = body_without_docstring(top_func(htree, "parse_forms_until", HR, cls="HyReader"))
     if [ast.dump(x) for x in fu] != [SK_FORMS_UNTIL]:
         raise ShapeChanged("%s: parse_forms_until changed shape" % HR)
+    # parse(): the code that runs outside try_parse_one_form's except clauses
+    pa = body_without_docstring(top_func(htree, "parse", HR, cls="HyReader"))
+    if len(pa) != 3:
+        raise ShapeChanged("%s: parse changed shape" % HR)
+    pconsts_parse = []
+    for st, want in zip(pa, SK_PARSE):
+        pconsts_parse += expect(st, want, "parse")
+    if len(pconsts_parse) != 5 or pconsts_parse[0] != "" or pconsts_parse[4] != "" or pconsts_parse[1] != pconsts_parse[2] \
+            or len(pconsts_parse[3]) != 1 or not pconsts_parse[1]:
+        raise ShapeChanged("%s: parse: unexpected constants %r" % (HR, pconsts_parse))
+    shebang, shebang_end = pconsts_parse[1], pconsts_parse[3]
     handlers = try_handlers(top_func(htree, "try_parse_one_form", HR, cls="HyReader"))
     # prefixed_string constants
     ps = top_func(htree, "prefixed_string", HR, cls="HyReader")
@@ -411,6 +435,8 @@ def translate(repo):
     out += "Definition escape_whitelist : text := %s.\n" % coq_text(wl[0])
     out += "Definition escape_whitelist_str : text := %s.\n" % coq_text(extra)
     out += "Definition none_name : text := %s.\n" % coq_text("None")
+    out += "(* HyReader.parse(skip_shebang=True): a text starting with shebang_mark loses everything through shebang_end *)\n"
+    out += "Definition shebang_mark : text := %s.\nDefinition shebang_end : N := %d%%N.\n" % (coq_text(shebang), ord(shebang_end))
     k1, nl, k2, k3, l0, c0 = getc_rule(rtree, htree)
     out += "(* Reader.getc: col += %d; at the newline character line += %d and col = %d; Reader._set_source starts at (%d, %d) *)\n" % (k1, k2, k3, l0, c0)
     out += "Definition getc_col_step : nat := %d%%nat.\nDefinition getc_newline : N := %d%%N.\n" % (k1, nl)
